@@ -1182,7 +1182,7 @@ fn main() {
     let f6 = factorial(6);
     runner::main(Spec {
         property: "C10",
-        rule: "svc / svc_unforced: one SVC fit per case (f64, DenseMatrix) on a seeded two-class data set of 4..80 rows, 1..5 features (separable / overlapping blobs, random labels, integer lattice, 15 % with exact duplicate rows incl. conflicting labels, imbalance down to 1 row per class), labels {-1,1} or another pair, C in [0.1,100], epoch 1..4, tol in [1e-4,1e-2], kernel linear / RBF / polynomial (degree 1..4, also coef0 < 0) / sigmoid; in `svc` 20 consecutive indices share the data set and differ in the forced visiting orders (epoch+1 permutations drawn from the case RNG and queued through the hook; the log must equal them), in `svc_unforced` the library's own RNG draws the schedule and the log is recorded; svc_enum_nN_eE: index enumerates all (N!)^(E+1) order tuples (mixed radix, lexicographic permutations) on 6 fixed-per-seed data sets of N rows (exhaustive when the tier runs the whole space, otherwise a seeded sample); an SVC case is non-trivial when the fitted model has a non-zero dual coefficient. svr: one SVR fit with a PSD kernel (linear, RBF, polynomial integer degree 1..3, coef0 >= 0) on 4..80 rows (linear / sine / noise / lattice / outlier / constant targets, scales 0.1..10, duplicates), eps in [0,0.5] incl. 0, non-trivial when at least one weight is non-zero; svr_not_psd: sigmoid / negative-coef0 polynomial, feasibility and expansion only. kernels / gram: always non-trivial. distinct = distinct hash of the description (data, parameters, schedule)",
+        rule: "svc / svc_unforced: one SVC fit per case (f64, DenseMatrix) on a seeded two-class data set of 4..80 rows, 1..5 features (separable / overlapping blobs, random labels, integer lattice, 15 % with exact duplicate rows incl. conflicting labels, imbalance down to 1 row per class), labels {-1,1} or another pair, C in [0.1,100], epoch 1..4, tol in [1e-4,1e-2], kernel linear / RBF / polynomial (degree 1..4, also coef0 < 0) / sigmoid; in `svc` 20 consecutive indices share the data set and differ in the forced visiting orders (epoch+1 permutations drawn from the case RNG and queued through the hook; the log must equal them), in `svc_unforced` the library's own RNG draws the schedule and the log is recorded; svc_enum_nN_eE: index enumerates all (N!)^(E+1) order tuples (mixed radix, lexicographic permutations) on 6 fixed-per-seed data sets of N rows (exhaustive when the tier runs the whole space, otherwise a seeded sample); an SVC case is non-trivial when the fitted model has a non-zero dual coefficient. svr: one SVR fit with a PSD kernel (linear, RBF, polynomial integer degree 1..3, coef0 >= 0) on 4..80 rows (linear / sine / noise / lattice / outlier / constant targets, scales 0.1..10, duplicates), eps in [0,0.5] incl. 0, non-trivial when at least one weight is non-zero; svr_not_psd: sigmoid / negative-coef0 polynomial, feasibility and expansion only. kernels / gram: always non-trivial. distinct = distinct hash of the description (data, parameters, schedule); svr_large: 1100..1600 rows, 1..3 features, noisy target, linear / RBF; parameter objects are passed to fit as clones in every second case",
         assumptions: vec![
             "f64 and DenseMatrix only (backend equivalence is C20)",
             "SVC schedules are forced through the verif hook (replayable); the unforced path is exercised by svc_unforced whose schedule is recorded but cannot be replayed bit-for-bit",
